@@ -1136,6 +1136,310 @@ def r_gather_scatter(name):
     return None
 
 
+
+# =====================================================================================================
+# part 3: remaining shuffles / rotates by immediate, and the AVX-512 / SSE4.1 floating-point specials
+# =====================================================================================================
+@resolver
+def r_misc_imm(name):
+    m = re.match(r'^__builtin_ia32_pro(l|r)(d|q)(128|256|512)$', name)
+    if m:
+        W = int(m.group(3))
+        b = 32 if m.group(2) == 'd' else 64
+        R = REG[W]
+        if m.group(1) == 'l':
+            e = 's == 0 ? x : (%s)((x << s) | (x >> (%d - s)))' % (UT[b], b)
+        else:
+            e = 's == 0 ? x : (%s)((x >> s) | (x << (%d - s)))' % (UT[b], b)
+        body = '  %s r = {{0}};\n  unsigned s = (unsigned)imm & %d;\n  for (int i = 0; i < %d; i++) { %s x = AVM_L%d(a, i); AVM_S%d(r, i, %s); }\n  return r;\n' % (R, b - 1, W // b, UT[b], b, b, e)
+        return Model(name, R, [(R, 'a'), ('int', 'imm')], body, imm=[1])
+    m = re.match(r'^__builtin_ia32_blendp(s|d)(256)?$', name)
+    if m:
+        W = int(m.group(2) or 128)
+        b = 32 if m.group(1) == 's' else 64
+        R = REG[W]
+        body = '  %s r = {{0}};\n  for (int i = 0; i < %d; i++) AVM_S%d(r, i, ((imm >> i) & 1) ? AVM_L%d(b, i) : AVM_L%d(a, i));\n  return r;\n' % (R, W // b, b, b, b)
+        return Model(name, R, [(R, 'a'), (R, 'b'), ('int', 'imm')], body, imm=[2])
+    m = re.match(r'^__builtin_ia32_pblend(w|d)(128|256)$', name)
+    if m:
+        W = int(m.group(2))
+        b = 16 if m.group(1) == 'w' else 32
+        R = REG[W]
+        sel = '(imm >> (i & 7)) & 1' if b == 16 else '(imm >> i) & 1'
+        body = '  %s r = {{0}};\n  for (int i = 0; i < %d; i++) AVM_S%d(r, i, (%s) ? AVM_L%d(b, i) : AVM_L%d(a, i));\n  return r;\n' % (R, W // b, b, sel, b, b)
+        return Model(name, R, [(R, 'a'), (R, 'b'), ('int', 'imm')], body, imm=[2])
+    if name == '_mm_move_sd':
+        return Model(name, 'm128', [('m128', 'a'), ('m128', 'b')], '  m128 r = a;\n  r.q[0] = b.q[0];\n  return r;\n')
+    if name == '_mm_move_ss':
+        return Model(name, 'm128', [('m128', 'a'), ('m128', 'b')], '  m128 r = a;\n  AVM_S32(r, 0, AVM_L32(b, 0));\n  return r;\n')
+    if name == '_mm_move_epi64':
+        return Model(name, 'm128', [('m128', 'a')], '  m128 r = {{0}};\n  r.q[0] = a.q[0];\n  return r;\n')
+    return None
+
+
+helper('avm_fp', r"""/* ---- IEEE helpers for the floating-point special instructions (bit level) ---- */
+#ifdef AVM_NATIVE
+#include <fenv.h>
+static inline float __CPROVER_round_to_integralf(float x, int m) {
+  int old = fegetround(); fesetround(m == 0 ? FE_TONEAREST : m == 1 ? FE_DOWNWARD : m == 2 ? FE_UPWARD : FE_TOWARDZERO);
+  volatile float v = x; float r = nearbyintf(v); fesetround(old); return r; }
+static inline double __CPROVER_round_to_integral(double x, int m) {
+  int old = fegetround(); fesetround(m == 0 ? FE_TONEAREST : m == 1 ? FE_DOWNWARD : m == 2 ? FE_UPWARD : FE_TOWARDZERO);
+  volatile double v = x; double r = nearbyint(v); fesetround(old); return r; }
+static inline int avm_cur_rm(void) { int m = fegetround(); return m == FE_TONEAREST ? 0 : m == FE_DOWNWARD ? 1 : m == FE_UPWARD ? 2 : 3; }
+#else
+static inline int avm_cur_rm(void) { return __CPROVER_rounding_mode; }
+#endif
+static inline uint32_t avm_qnan32(uint32_t u) { return u | 0x00400000u; }
+static inline uint64_t avm_qnan64(uint64_t u) { return u | 0x0008000000000000ull; }
+static inline int avm_isnan32(uint32_t u) { return (u & 0x7fffffffu) > 0x7f800000u; }
+static inline int avm_isnan64(uint64_t u) { return (u & 0x7fffffffffffffffull) > 0x7ff0000000000000ull; }
+/* ROUNDPS / VRNDSCALEPS with scale 0: imm[1:0] rounding control, imm[2] = use MXCSR.RC */
+static inline uint32_t avm_round32(uint32_t u, int imm) {
+  if (avm_isnan32(u)) return avm_qnan32(u);
+  int m = (imm & 4) ? avm_cur_rm() : (imm & 3);
+  return avm_f2u(__CPROVER_round_to_integralf(avm_u2f(u), m));
+}
+static inline uint64_t avm_round64(uint64_t u, int imm) {
+  if (avm_isnan64(u)) return avm_qnan64(u);
+  int m = (imm & 4) ? avm_cur_rm() : (imm & 3);
+  return avm_d2u(__CPROVER_round_to_integral(avm_u2d(u), m));
+}
+/* VGETEXP: floor(log2|x|) as a float; denormals are normalised first; 0 -> -inf, inf -> +inf, NaN -> QNaN */
+static inline uint32_t avm_getexp32(uint32_t u) {
+  if (avm_isnan32(u)) return avm_qnan32(u);
+  uint32_t e = (u >> 23) & 0xff, f = u & 0x7fffffu;
+  if (e == 0xff) return 0x7f800000u;
+  if (e == 0 && f == 0) return 0xff800000u;
+  int32_t ex = (int32_t)e - 127;
+  if (e == 0) { ex = -126; for (int i = 0; i < 23; i++) { if (f & 0x400000u) break; f <<= 1; ex--; } ex--; }
+  return avm_f2u((float)ex);
+}
+static inline uint64_t avm_getexp64(uint64_t u) {
+  if (avm_isnan64(u)) return avm_qnan64(u);
+  uint64_t e = (u >> 52) & 0x7ff, f = u & 0xfffffffffffffull;
+  if (e == 0x7ff) return 0x7ff0000000000000ull;
+  if (e == 0 && f == 0) return 0xfff0000000000000ull;
+  int32_t ex = (int32_t)e - 1023;
+  if (e == 0) { ex = -1022; for (int i = 0; i < 52; i++) { if (f & 0x8000000000000ull) break; f <<= 1; ex--; } ex--; }
+  return avm_d2u((double)ex);
+}
+/* VGETMANT (SDM GetNormalizeMantissa); imm[1:0] interval, imm[3:2] sign control */
+static inline uint32_t avm_getmant32(uint32_t u, int imm) {
+  int interv = imm & 3, sc = (imm >> 2) & 3;
+  uint32_t sign = (sc & 1) ? 0 : (u >> 31), e = (u >> 23) & 0xff, f = u & 0x7fffffu;
+  if (avm_isnan32(u)) return avm_qnan32(u);
+  if ((u >> 31) && (sc & 2) && !(e == 0 && f == 0)) return 0xffc00000u;   /* negative source with SignCtrl[1]: QNaN indefinite */
+  int32_t ex = (int32_t)e;
+  if (e == 0xff || (e == 0 && f == 0)) { ex = 127; f = 0; }
+  else if (e == 0) { ex = 1; for (int i = 0; i < 23; i++) { if (f & 0x800000u) break; f <<= 1; ex--; } f &= 0x7fffffu; }
+  int odd = (ex - 127) & 1;
+  uint32_t ne = 127;
+  if (interv == 1) ne = odd ? 126 : 127; else if (interv == 2) ne = 126; else if (interv == 3) ne = (f & 0x400000u) ? 126 : 127;
+  return (sign << 31) | (ne << 23) | f;
+}
+static inline uint64_t avm_getmant64(uint64_t u, int imm) {
+  int interv = imm & 3, sc = (imm >> 2) & 3;
+  uint64_t sign = (sc & 1) ? 0 : (u >> 63), e = (u >> 52) & 0x7ff, f = u & 0xfffffffffffffull;
+  if (avm_isnan64(u)) return avm_qnan64(u);
+  if ((u >> 63) && (sc & 2) && !(e == 0 && f == 0)) return 0xfff8000000000000ull;
+  int32_t ex = (int32_t)e;
+  if (e == 0x7ff || (e == 0 && f == 0)) { ex = 1023; f = 0; }
+  else if (e == 0) { ex = 1; for (int i = 0; i < 52; i++) { if (f & 0x10000000000000ull) break; f <<= 1; ex--; } f &= 0xfffffffffffffull; }
+  int odd = (ex - 1023) & 1;
+  uint64_t ne = 1023;
+  if (interv == 1) ne = odd ? 1022 : 1023; else if (interv == 2) ne = 1022; else if (interv == 3) ne = (f & 0x8000000000000ull) ? 1022 : 1023;
+  return (sign << 63) | (ne << 52) | f;
+}
+/* VSCALEF: a * 2^floor(b) with the SDM special-case table */
+static inline uint32_t avm_scalef32(uint32_t ua, uint32_t ub) {
+  if (avm_isnan32(ua)) return avm_qnan32(ua);
+  if (avm_isnan32(ub)) return avm_qnan32(ub);
+  uint32_t sa = ua & 0x80000000u;
+  int a_inf = (ua & 0x7fffffffu) == 0x7f800000u, a_zero = (ua & 0x7fffffffu) == 0;
+  if (ub == 0x7f800000u) return a_zero ? 0xffc00000u : (sa | 0x7f800000u);
+  if (ub == 0xff800000u) return a_inf ? 0xffc00000u : sa;
+  if (a_inf || a_zero) return ua;
+  float fb = __CPROVER_round_to_integralf(avm_u2f(ub), 1);
+  int32_t k = fb > 400.0f ? 400 : (fb < -400.0f ? -400 : (int32_t)fb);
+  double p = avm_u2d((uint64_t)(1023 + k) << 52);
+  return avm_f2u((float)((double)avm_u2f(ua) * p));
+}
+static inline uint64_t avm_scalef64(uint64_t ua, uint64_t ub) {
+  if (avm_isnan64(ua)) return avm_qnan64(ua);
+  if (avm_isnan64(ub)) return avm_qnan64(ub);
+  uint64_t sa = ua & 0x8000000000000000ull;
+  int a_inf = (ua << 1) == 0xffe0000000000000ull, a_zero = (ua << 1) == 0;
+  if (ub == 0x7ff0000000000000ull) return a_zero ? 0xfff8000000000000ull : (sa | 0x7ff0000000000000ull);
+  if (ub == 0xfff0000000000000ull) return a_inf ? 0xfff8000000000000ull : sa;
+  if (a_inf || a_zero) return ua;
+  double fb = __CPROVER_round_to_integral(avm_u2d(ub), 1);
+  int32_t k = fb > 2400.0 ? 2400 : (fb < -2400.0 ? -2400 : (int32_t)fb);
+  /* two exact power-of-two steps followed by one rounding step would double-round in the subnormal range;
+     scale in three factors whose product never leaves the double range until the last, which rounds once */
+  double x = avm_u2d(ua);
+  int32_t k1 = k / 3, k2 = k / 3, k3 = k - k1 - k2;
+  /* |k/3| <= 800: 2^k1 representable; x*2^k1*2^k2 is exact unless it overflows/underflows, in which case the final result is the same limit */
+  long double lx = (long double)x;
+  long double p1 = (long double)avm_u2d((uint64_t)(1023 + k1) << 52), p2 = (long double)avm_u2d((uint64_t)(1023 + k2) << 52), p3 = (long double)avm_u2d((uint64_t)(1023 + k3) << 52);
+  return avm_d2u((double)(lx * p1 * p2 * p3));
+}
+/* VFPCLASS */
+static inline int avm_fpclass32(uint32_t u, int imm) {
+  uint32_t e = (u >> 23) & 0xff, f = u & 0x7fffffu, s = u >> 31;
+  int qnan = e == 0xff && (f & 0x400000u), snan = e == 0xff && f != 0 && !(f & 0x400000u);
+  int zero = e == 0 && f == 0, inf = e == 0xff && f == 0, den = e == 0 && f != 0;
+  int negfin = s && e != 0xff && !zero;
+  return ((imm & 1) && qnan) || ((imm & 2) && zero && !s) || ((imm & 4) && zero && s) || ((imm & 8) && inf && !s)
+      || ((imm & 16) && inf && s) || ((imm & 32) && den) || ((imm & 64) && negfin) || ((imm & 128) && snan);
+}
+static inline int avm_fpclass64(uint64_t u, int imm) {
+  uint64_t e = (u >> 52) & 0x7ff, f = u & 0xfffffffffffffull, s = u >> 63;
+  int qnan = e == 0x7ff && (f & 0x8000000000000ull) != 0, snan = e == 0x7ff && f != 0 && !(f & 0x8000000000000ull);
+  int zero = e == 0 && f == 0, inf = e == 0x7ff && f == 0, den = e == 0 && f != 0;
+  int negfin = s && e != 0x7ff && !zero;
+  return ((imm & 1) && qnan) || ((imm & 2) && zero && !s) || ((imm & 4) && zero && s) || ((imm & 8) && inf && !s)
+      || ((imm & 16) && inf && s) || ((imm & 32) && den) || ((imm & 64) && negfin) || ((imm & 128) && snan);
+}
+/* VFIXUPIMM: response selected by the class of src2 (b) from the 32-bit table lane */
+static inline uint32_t avm_fixup32(uint32_t dst, uint32_t b, uint32_t tbl) {
+  uint32_t e = (b >> 23) & 0xff, f = b & 0x7fffffu, s = b >> 31;
+  int cls;
+  if (e == 0xff && f != 0) cls = (f & 0x400000u) ? 0 : 1;
+  else if (e == 0 && f == 0) cls = 2;
+  else if (b == 0x3f800000u) cls = 3;
+  else if (e == 0xff) cls = s ? 4 : 5;
+  else cls = s ? 6 : 7;
+  switch ((tbl >> (4 * cls)) & 0xf) {
+    case 0: return dst;            case 1: return b;                 case 2: return avm_qnan32(b);  case 3: return 0xffc00000u;
+    case 4: return 0xff800000u;    case 5: return 0x7f800000u;       case 6: return (s << 31) | 0x7f800000u; case 7: return 0x80000000u;
+    case 8: return 0;              case 9: return 0xbf800000u;       case 10: return 0x3f800000u;   case 11: return 0x3f000000u;
+    case 12: return 0x42b40000u;   case 13: return 0x3fc90fdbu;      case 14: return 0x7f7fffffu;   default: return 0xff7fffffu;
+  }
+}
+static inline uint64_t avm_fixup64(uint64_t dst, uint64_t b, uint64_t tbl) {
+  uint64_t e = (b >> 52) & 0x7ff, f = b & 0xfffffffffffffull, s = b >> 63;
+  int cls;
+  if (e == 0x7ff && f != 0) cls = (f & 0x8000000000000ull) ? 0 : 1;
+  else if (e == 0 && f == 0) cls = 2;
+  else if (b == 0x3ff0000000000000ull) cls = 3;
+  else if (e == 0x7ff) cls = s ? 4 : 5;
+  else cls = s ? 6 : 7;
+  switch ((tbl >> (4 * cls)) & 0xf) {
+    case 0: return dst;            case 1: return b;                 case 2: return avm_qnan64(b);  case 3: return 0xfff8000000000000ull;
+    case 4: return 0xfff0000000000000ull; case 5: return 0x7ff0000000000000ull; case 6: return (s << 63) | 0x7ff0000000000000ull; case 7: return 0x8000000000000000ull;
+    case 8: return 0;              case 9: return 0xbff0000000000000ull; case 10: return 0x3ff0000000000000ull; case 11: return 0x3fe0000000000000ull;
+    case 12: return 0x4056800000000000ull; case 13: return 0x3ff921fb54442d18ull; case 14: return 0x7fefffffffffffffull; default: return 0xffefffffffffffffull;
+  }
+}
+/* VRANGE: imm[1:0] 0 min, 1 max, 2 abs-min, 3 abs-max; imm[3:2] sign control */
+static inline uint32_t avm_range32(uint32_t a, uint32_t b, int imm) {
+  int op = imm & 3, sc = (imm >> 2) & 3;
+  if (avm_isnan32(a) && !(a & 0x400000u)) return avm_qnan32(a);
+  if (avm_isnan32(b) && !(b & 0x400000u)) return avm_qnan32(b);
+  if (avm_isnan32(a)) return avm_isnan32(b) ? a : b;
+  if (avm_isnan32(b)) return a;
+  uint32_t ma = a & 0x7fffffffu, mb = b & 0x7fffffffu, t;
+  float fa = avm_u2f(a), fb = avm_u2f(b);
+  if (op < 2) {
+    int a_le;                     /* total order on values, with -0 < +0 */
+    if (fa == fb) a_le = (a >> 31) >= (b >> 31); else a_le = fa < fb;
+    t = (op == 0) ? (a_le ? a : b) : (a_le ? b : a);
+  } else {
+    int a_le;
+    if (ma == mb) a_le = (a >> 31) >= (b >> 31); else a_le = ma < mb;
+    t = (op == 2) ? (a_le ? a : b) : (a_le ? b : a);
+  }
+  switch (sc) { case 0: return (a & 0x80000000u) | (t & 0x7fffffffu); case 1: return t; case 2: return t & 0x7fffffffu; default: return t | 0x80000000u; }
+}
+static inline uint64_t avm_range64(uint64_t a, uint64_t b, int imm) {
+  int op = imm & 3, sc = (imm >> 2) & 3;
+  const uint64_t Q = 0x8000000000000ull, SB = 0x8000000000000000ull;
+  if (avm_isnan64(a) && !(a & Q)) return avm_qnan64(a);
+  if (avm_isnan64(b) && !(b & Q)) return avm_qnan64(b);
+  if (avm_isnan64(a)) return avm_isnan64(b) ? a : b;
+  if (avm_isnan64(b)) return a;
+  uint64_t ma = a & ~SB, mb = b & ~SB, t;
+  double fa = avm_u2d(a), fb = avm_u2d(b);
+  if (op < 2) {
+    int a_le;
+    if (fa == fb) a_le = (a >> 63) >= (b >> 63); else a_le = fa < fb;
+    t = (op == 0) ? (a_le ? a : b) : (a_le ? b : a);
+  } else {
+    int a_le;
+    if (ma == mb) a_le = (a >> 63) >= (b >> 63); else a_le = ma < mb;
+    t = (op == 2) ? (a_le ? a : b) : (a_le ? b : a);
+  }
+  switch (sc) { case 0: return (a & SB) | (t & ~SB); case 1: return t; case 2: return t & ~SB; default: return t | SB; }
+}
+""")
+
+
+@resolver
+def r_fp_special(name):
+    def lanes(W, b, args, expr, imm=(), extra=''):
+        R = REG[W]
+        n = W // b
+        return Model(name, R, args, '%s  %s r = {{0}};\n  for (int i = 0; i < %d; i++) AVM_S%d(r, i, %s);\n  return r;\n' % (extra, R, n, b, expr),
+                     deps=['avm_fp'], imm=imm)
+    m = re.match(r'^__builtin_ia32_roundp(s|d)(256)?$', name)
+    if m:
+        W = int(m.group(2) or 128)
+        b = 32 if m.group(1) == 's' else 64
+        return lanes(W, b, [(REG[W], 'a'), ('int', 'imm')], 'avm_round%d(AVM_L%d(a, i), imm)' % (b, b), imm=[1])
+    m = re.match(r'^__builtin_ia32_rndscalep(s|d)(_128|_256)?_mask$', name)
+    if m:
+        W = {None: 512, '_128': 128, '_256': 256}[m.group(2)]
+        b = 32 if m.group(1) == 's' else 64
+        n = W // b
+        args = [(REG[W], 'a'), ('int', 'imm'), (REG[W], 'src'), (ktype(n), 'k')] + ([('int', 'rounding')] if W == 512 else [])
+        extra = '  __CPROVER_assert((imm >> 4) == 0, "model: VRNDSCALE with a non-zero scale is not modelled");\n'
+        return lanes(W, b, args, '(((uint64_t)k >> i) & 1) ? avm_round%d(AVM_L%d(a, i), imm) : AVM_L%d(src, i)' % (b, b, b),
+                     imm=[1] + ([4] if W == 512 else []), extra=extra)
+    m = re.match(r'^_mm(256|512)?_(mask_|maskz_)?getexp_(ps|pd)$', name)
+    if m and not m.group(2):
+        W = int(m.group(1) or 128)
+        b = 32 if m.group(3) == 'ps' else 64
+        return lanes(W, b, [(REG[W], 'a')], 'avm_getexp%d(AVM_L%d(a, i))' % (b, b))
+    m = re.match(r'^_mm(256|512)?_(mask_|maskz_)?scalef_(ps|pd)$', name)
+    if m and not m.group(2):
+        W = int(m.group(1) or 128)
+        b = 32 if m.group(3) == 'ps' else 64
+        return lanes(W, b, [(REG[W], 'a'), (REG[W], 'b')], 'avm_scalef%d(AVM_L%d(a, i), AVM_L%d(b, i))' % (b, b, b))
+    m = re.match(r'^__builtin_ia32_getmantp(s|d)(128|256|512)_mask$', name)
+    if m:
+        W = int(m.group(2))
+        b = 32 if m.group(1) == 's' else 64
+        n = W // b
+        args = [(REG[W], 'a'), ('int', 'imm'), (REG[W], 'src'), (ktype(n), 'k')] + ([('int', 'rounding')] if W == 512 else [])
+        return lanes(W, b, args, '(((uint64_t)k >> i) & 1) ? avm_getmant%d(AVM_L%d(a, i), imm) : AVM_L%d(src, i)' % (b, b, b),
+                     imm=[1] + ([4] if W == 512 else []))
+    m = re.match(r'^__builtin_ia32_fixupimmp(s|d)(128|256|512)_mask$', name)
+    if m:
+        W = int(m.group(2))
+        b = 32 if m.group(1) == 's' else 64
+        n = W // b
+        args = [(REG[W], 'a'), (REG[W], 'b'), (REG[W], 'c'), ('int', 'imm'), (ktype(n), 'k')] + ([('int', 'rounding')] if W == 512 else [])
+        return lanes(W, b, args, '(((uint64_t)k >> i) & 1) ? avm_fixup%d(AVM_L%d(a, i), AVM_L%d(b, i), AVM_L%d(c, i)) : AVM_L%d(a, i)' % (b, b, b, b, b),
+                     imm=[3] + ([5] if W == 512 else []))
+    m = re.match(r'^__builtin_ia32_rangep(s|d)(128|256|512)_mask$', name)
+    if m:
+        W = int(m.group(2))
+        b = 32 if m.group(1) == 's' else 64
+        n = W // b
+        args = [(REG[W], 'a'), (REG[W], 'b'), ('int', 'imm'), (REG[W], 'src'), (ktype(n), 'k')] + ([('int', 'rounding')] if W == 512 else [])
+        return lanes(W, b, args, '(((uint64_t)k >> i) & 1) ? avm_range%d(AVM_L%d(a, i), AVM_L%d(b, i), imm) : AVM_L%d(src, i)' % (b, b, b, b),
+                     imm=[2] + ([5] if W == 512 else []))
+    m = re.match(r'^__builtin_ia32_fpclassp(s|d)(128|256|512)_mask$', name)
+    if m:
+        W = int(m.group(2))
+        b = 32 if m.group(1) == 's' else 64
+        n = W // b
+        body = '  uint64_t r = 0;\n  for (int i = 0; i < %d; i++) r |= (uint64_t)(avm_fpclass%d(AVM_L%d(a, i), imm) != 0) << i;\n  return (%s)(r & (uint64_t)k);\n' % (n, b, b, ktype(n))
+        return Model(name, ktype(n), [(REG[W], 'a'), ('int', 'imm'), (ktype(n), 'k')], body, deps=['avm_fp'], imm=[1])
+    return None
+
+
 def model_for(name):
     for r in RESOLVERS:
         m = r(name)
